@@ -40,7 +40,8 @@ git -C $REPO worktree remove --force "$WT"
 detected=""; missed=""
 if [ "$res_apply" = ok ] && [ "$res_build" = ok ]; then
   git -C $REPO apply "$OUT/patch.diff"
-  for c in $(python3 -c "import json;print(' '.join(x['property_id'] for x in json.load(open('$VERIF/MANIFEST.json'))['checks']))"); do
+  ALL=$(python3 -c "import json;print(' '.join(x['property_id'] for x in json.load(open('$VERIF/MANIFEST.json'))['checks']))")
+  for c in ${CHECKS:-$ALL}; do
     out=$(cd $VERIF && VERIF_REPO=$REPO timeout 1200 bin/check $c --tier quick 2>/dev/null | grep -m3 "^VIOLATION")
     if [ -n "$out" ]; then detected="$detected $c"; echo "$c: $out" >> "$OUT/checks.log"; else missed="$missed $c"; fi
   done
@@ -53,7 +54,7 @@ out,id_,prop,ap,bu,te,dw,dwo,det=sys.argv[1:10]
 notes=open(os.path.join(out,'notes.md')).read() if os.path.exists(os.path.join(out,'notes.md')) else ''
 meta={"seed_id":id_,"breaks_property":prop,"valid": ap=="ok" and bu=="ok" and te=="ok" and dw=="fail" and dwo=="pass",
  "applies":ap,"builds":bu,"existing_tests_pass_with_change":te,"demo_with_change":dw,"demo_without_change":dwo,
- "detected_by_checks":det.split(),"detected_by_own_property_check": prop in det.split(),
+ "detected_by_checks":det.split(),"checks_run":os.environ.get("CHECKS","all"),"detected_by_own_property_check": prop in det.split(),
  "needs_to_manifest":notes[:1500],
  "what_was_run":"tools/trymutant.sh: scratch worktree validation (private /tmp), then git -C $REPO apply; every MANIFEST quick check; git -C $REPO checkout -- ."}
 json.dump(meta,open(os.path.join(out,'meta.json'),'w'),indent=1)
